@@ -216,6 +216,28 @@ def run (ts : List String) : Option String :=
     let (ct, _) ← pHex ts
     let ctxs := (ieeUnwrapTable c k1 k2 addr n tab).filterMap id
     pure (hexOut (ieeHwReadAll c ctxs base ct))
+  | "iee_hwtabx" :: ts => do      -- extended engine (all modes, page offset) programmed from the exported table
+    let (k1, ts) ← pHex ts
+    let (k2, ts) ← pHex ts
+    let (addr, ts) ← pNat ts
+    let (n, ts) ← pNat ts
+    let (tab, ts) ← pHex ts
+    let (base, ts) ← pNat ts
+    let (ct, _) ← pHex ts
+    let ctxs := (ieeUnwrapTable c k1 k2 addr n tab).filterMap id
+    pure (hexOut (ieeHwReadAllX c ctxs base ct))
+  | "iee_ctrx" :: ts => do        -- region `idx` of the exported table reads `ct` block by block from system address `a`
+    let (k1, ts) ← pHex ts
+    let (k2, ts) ← pHex ts
+    let (addr, ts) ← pNat ts
+    let (n, ts) ← pNat ts
+    let (tab, ts) ← pHex ts
+    let (idx, ts) ← pNat ts
+    let (a, ts) ← pNat ts
+    let (ct, _) ← pHex ts
+    match (ieeUnwrapTable c k1 k2 addr n tab)[idx]? with
+    | some (some x) => pure (if x.isCtrMode then hexOut (ieeCtrReadX c x (blocksFor ct.length) a ct) else "E:not-ctr")
+    | _ => pure "E:no-region"
   | "iee_tweak" :: ts => do
     let (a, _) ← pNat ts
     pure (hexOut (IeeBlob.tweak a))
